@@ -138,8 +138,9 @@ let parse_op (ws : string list) : map_op =
   | "shrinktofit" -> OpShrinkToFit
   | "retain" -> OpRetain (List.map zs (rest 2), z 1)
   | "extend" -> OpExtend (List.map parse_kv3 (rest 1))
-  | "drain" -> OpDrain (n 1)
-  | "extractif" -> OpExtractIf (List.map zs (rest 2), n 1)
+  | "drain" | "forget_drain" | "forget_iter" -> OpDrain (n 1)
+  | "extractif" | "forget_extractif" -> OpExtractIf (List.map zs (rest 2), n 1)
+  | "forget_entry" -> OpContains (z 1)
   | "iter" -> OpIter
   | "iterfold" -> OpIterFold (n 1)
   | "len" -> OpLen
@@ -979,6 +980,12 @@ let () =
             | Fail e ->
               say "C-MISMATCH %s: model stops with %s but the implementation returned [%s]; pre=%s" where (err_text e) ret_s (dump_text pre)
             | Ok ((t', o), evs) ->
+              (* a leaked Drain / IntoIter: the map was left as the empty singleton when the
+                 iterator was created and nothing is dropped or freed (mem::forget) *)
+              let leaked = opname = "forget_drain" || opname = "forget_iter" in
+              let t' = if leaked then new_table cfg.backend else t' in
+              let evs = if leaked then [] else evs in
+              if leaked then bump branch "leaked_drain";
               let mt = table_text t' and it = dump_text post in
               if mt <> it then say "C-MISMATCH %s: post-state: model [%s] impl [%s] pre [%s]" where mt it (dump_text pre);
               let mo = out_text o in
